@@ -32,6 +32,9 @@ def main():
         checks = sys.argv[sys.argv.index("--checks") + 1].split(",")
     if "--tier" in sys.argv:
         tier = sys.argv[sys.argv.index("--tier") + 1]
+    tag = ""
+    if "--tag" in sys.argv:
+        tag = sys.argv[sys.argv.index("--tag") + 1]
     patch = os.path.join(src, "m%s.diff" % k)
     demo = os.path.join(src, "demo%s.py" % k)
     note = os.path.join(src, "note%s.md" % k)
@@ -68,7 +71,7 @@ def main():
         meta["checks"] = res
         meta["detected_by"] = [c for c, r in res.items() if r["exit"] == 1]
         if ok:
-            d = os.path.join(ROOT, "seeded", "%s-m%s" % (prop, k))
+            d = os.path.join(ROOT, "seeded", "%s-%sm%s" % (prop, tag, k))
             os.makedirs(d, exist_ok=True)
             shutil.copy(patch, os.path.join(d, "patch.diff"))
             shutil.copy(demo, os.path.join(d, "demo.py"))
